@@ -265,8 +265,27 @@ def expand_fn_real(d: Directive, stats, stub):
         out = "#[verifier::external_body]\n" + sig.rstrip() + "\n" + (d.spec.rstrip() + "\n" if d.spec.strip() else "") + "{ unimplemented!() }\n"
     else:
         out = sig.rstrip() + "\n" + (d.spec.rstrip() + "\n" if d.spec.strip() else "") + body
+    # constants of the same source file that the text refers to: extracted too (see build())
+    info["auto_consts"] = collect_consts(src, out)
     stats.append(info)
     return out
+
+
+def collect_consts(src, text, depth=0):
+    """SCREAMING_CASE names used in `text` that are `const` items of the source file -> their text
+    (followed transitively), so that a refactoring which names a literal does not lose the function."""
+    found = {}
+    for name in sorted(set(re.findall(r"\b[A-Z][A-Z0-9_]{2,}\b", rsx.mask(text)))):
+        try:
+            h = rsx.find_const(src, name)
+        except rsx.LostAnchor:
+            continue
+        ctext = re.sub(r"^\s*(pub(\s*\([^)]*\))?\s+)?const", "pub const", h["text"])
+        found[name] = ctext
+        if depth < 3:
+            for k, v in collect_consts(src, ctext.split("=", 1)[1] if "=" in ctext else "", depth + 1).items():
+                found.setdefault(k, v)
+    return found
 
 
 def expand_item(kind, text, stats):
@@ -327,6 +346,16 @@ def build(template_path, out_path):
 
     out = re.sub(r"/\*@fn\n(.*?)@\*/", repl, t, flags=re.S)
     out = re.sub(r"/\*@(const|struct)\n(.*?)@\*/", lambda m: expand_item(m.group(1), m.group(2), stats), out, flags=re.S)
+    # constants referred to by the extracted functions and not already present in the unit
+    auto = {}
+    for st in stats:
+        for k, v in (st.get("auto_consts") or {}).items():
+            auto.setdefault(k, v)
+    missing = [v for k, v in sorted(auto.items()) if not re.search(r"\bconst\s+" + re.escape(k) + r"\b", out)]
+    if missing:
+        m = re.search(r"^verus!\s*\{[ \t]*\n", out, re.M)
+        if m:
+            out = out[:m.end()] + "// constants extracted from the source file (referred to by the functions below)\n" + "\n".join(missing) + "\n" + out[m.end():]
     os.makedirs(os.path.dirname(out_path), exist_ok=True)
     with open(out_path, "w") as f:
         f.write(out)
